@@ -14,6 +14,8 @@ import Bridge.Message
 import PtaProofs.Lemmas.SearchChar
 import PtaProofs.Lemmas.MessageText
 import PtaProofs.Lemmas.MessageTextLayer
+import Bridge.ReportQueries
+import PtaProofs.Lemmas.MissingLines
 namespace Pta.C03
 open Pta
 
@@ -37,6 +39,153 @@ theorem missing_lines_name_subjects (mt : Str → Str → Bool) (g : PGraph Str)
     (hos : (convertAliases r.cfg).objects = some os) (hconvo : convertFilters mt g.nodes os = .ok objs) :
     ∀ any s objsM d, Item.miss any s objsM d ∈ items → s ∈ subs.map Filter.toMod ∧ ∀ o ∈ objsM, o ∈ objs.map Filter.toMod :=
   Pta.missing_lines_name_subjects_lemma mt g r items h ss subs os objs hss hconv hos hconvo
+
+/-! ## Part 1b (audit finding F10): the `does not import` / `is not imported by` lines are exactly the missing imports
+
+Every graph, every rule (related names, parent filters, regexes, the `anything` aliases included).  `dir`, `subs`, `objs` are
+the rule's direction and its subject / object filters after alias conversion and regex expansion; `pairQuery g dir s o` is
+the query the library asks for the pair (subject `s`, object `o`) and `otherQuery g dir s objs` the query it asks for the
+subject `s` of an `except` rule (Bridge/ReportQueries.lean); `Mod.toFilter` reads a reported module back as a filter. -/
+
+/-- `missing_lines_are_missing`: a `does not import` line (plain form) appears only for a `should` / `should_only` rule
+    without `except`; it names ONE rule subject, and its object list is non-empty, free of duplicates and consists of EXACTLY
+    the rule objects `o` for which the pair (subject, `o`) is realised by no import (the query result is empty) -/
+theorem missing_lines_are_missing (mt : Str → Str → Bool) (g : PGraph Str) (r : RuleState) (items : List Item)
+    (h : (assertApplies mt r g).2 = .fail items) (dir : Bool) (ss subs os objs : List Filter)
+    (hd : (convertAliases r.cfg).importDir = some dir)
+    (hss : (convertAliases r.cfg).subjects = some ss) (hconv : convertFilters mt g.nodes ss = .ok subs)
+    (hos : (convertAliases r.cfg).objects = some os) (hconvo : convertFilters mt g.nodes os = .ok objs) :
+    ∀ s objsM d, Item.miss false s objsM d ∈ items →
+      (((convertAliases r.cfg).behavior.should || (convertAliases r.cfg).behavior.shouldOnly) &&
+        !(convertAliases r.cfg).behavior.exc) = true ∧ d = !dir ∧
+      s.toFilter ∈ subs ∧ objsM ≠ [] ∧ objsM.Nodup ∧
+      ∀ o, o ∈ objsM ↔ (o.toFilter ∈ objs ∧ pairQuery g dir s.toFilter o.toFilter = .ok []) :=
+  Pta.missing_lines_are_missing_lemma mt g r items h dir ss subs os objs hd hss hconv hos hconvo
+
+/-- the `any module that is not …` form appears only for a `should` / `should_only` rule WITH `except`; it names one rule
+    subject whose "other" query found no import at all, and lists ALL rule objects (in rule order, without duplicates) -/
+theorem missing_any_lines_are_missing (mt : Str → Str → Bool) (g : PGraph Str) (r : RuleState) (items : List Item)
+    (h : (assertApplies mt r g).2 = .fail items) (dir : Bool) (ss subs os objs : List Filter)
+    (hd : (convertAliases r.cfg).importDir = some dir)
+    (hss : (convertAliases r.cfg).subjects = some ss) (hconv : convertFilters mt g.nodes ss = .ok subs)
+    (hos : (convertAliases r.cfg).objects = some os) (hconvo : convertFilters mt g.nodes os = .ok objs) :
+    ∀ s objsM d, Item.miss true s objsM d ∈ items →
+      (((convertAliases r.cfg).behavior.should || (convertAliases r.cfg).behavior.shouldOnly) &&
+        (convertAliases r.cfg).behavior.exc) = true ∧ d = !dir ∧
+      s.toFilter ∈ subs ∧ objsM = dedup (objs.map Filter.toMod) ∧ otherQuery g dir s.toFilter objs = .ok [] :=
+  Pta.missing_any_lines_are_missing_lemma mt g r items h dir ss subs os objs hd hss hconv hos hconvo
+
+/-- `one_missing_line_per_subject`: two `does not import` lines of the same form for the same subject are the same line
+    (same objects, same wording) … -/
+theorem one_missing_line_per_subject (mt : Str → Str → Bool) (g : PGraph Str) (r : RuleState) (items : List Item)
+    (h : (assertApplies mt r g).2 = .fail items) :
+    ∀ any s os₁ d₁ os₂ d₂, Item.miss any s os₁ d₁ ∈ items → Item.miss any s os₂ d₂ ∈ items → os₁ = os₂ ∧ d₁ = d₂ :=
+  Pta.missing_line_unique_lemma mt g r items h
+
+/-- … and the report holds at most ONE such item per (form, subject) for a rule with a single verb.  A rule object that
+    carries both `should()` and `should_only()` (accepted by the library: not contradictory) produces the identical item
+    twice — see `missing_line_twice_witness`; the message text is de-duplicated (`line_of_item`), so the text has one line -/
+theorem missing_line_count (mt : Str → Str → Bool) (g : PGraph Str) (r : RuleState) (items : List Item)
+    (h : (assertApplies mt r g).2 = .fail items) (any : Bool) (s : Mod) :
+    items.countP (Item.isMissFor any s) ≤
+      if ((convertAliases r.cfg).behavior.should && (convertAliases r.cfg).behavior.shouldOnly) = true then 2 else 1 :=
+  Pta.missing_line_count_lemma mt g r items h any s
+
+/-- `missing_lines_complete`: for a `should` / `should_only` rule without `except`, every pair (rule subject, rule object)
+    that no import realises is reported, on the line of that subject -/
+theorem missing_lines_complete (mt : Str → Str → Bool) (g : PGraph Str) (r : RuleState) (items : List Item)
+    (h : (assertApplies mt r g).2 = .fail items) (dir : Bool) (ss subs os objs : List Filter)
+    (hd : (convertAliases r.cfg).importDir = some dir)
+    (hss : (convertAliases r.cfg).subjects = some ss) (hconv : convertFilters mt g.nodes ss = .ok subs)
+    (hos : (convertAliases r.cfg).objects = some os) (hconvo : convertFilters mt g.nodes os = .ok objs)
+    (hverb : (((convertAliases r.cfg).behavior.should || (convertAliases r.cfg).behavior.shouldOnly) &&
+        !(convertAliases r.cfg).behavior.exc) = true) :
+    ∀ s ∈ subs, ∀ o ∈ objs, pairQuery g dir s o = .ok [] →
+      ∃ objsM, Item.miss false s.toMod objsM (!dir) ∈ items ∧ o.toMod ∈ objsM :=
+  Pta.missing_lines_complete_lemma mt g r items h dir ss subs os objs hd hss hconv hos hconvo hverb
+
+/-- … and for a `should` / `should_only` rule with `except`, every rule subject without any other import is reported -/
+theorem missing_any_lines_complete (mt : Str → Str → Bool) (g : PGraph Str) (r : RuleState) (items : List Item)
+    (h : (assertApplies mt r g).2 = .fail items) (dir : Bool) (ss subs os objs : List Filter)
+    (hd : (convertAliases r.cfg).importDir = some dir)
+    (hss : (convertAliases r.cfg).subjects = some ss) (hconv : convertFilters mt g.nodes ss = .ok subs)
+    (hos : (convertAliases r.cfg).objects = some os) (hconvo : convertFilters mt g.nodes os = .ok objs)
+    (hverb : (((convertAliases r.cfg).behavior.should || (convertAliases r.cfg).behavior.shouldOnly) &&
+        (convertAliases r.cfg).behavior.exc) = true) :
+    ∀ s ∈ subs, otherQuery g dir s objs = .ok [] →
+      Item.miss true s.toMod (dedup (objs.map Filter.toMod)) (!dir) ∈ items :=
+  Pta.missing_any_lines_complete_lemma mt g r items h dir ss subs os objs hd hss hconv hos hconvo hverb
+
+/-- what "the query for the pair is empty" means on the graph: both modules exist and NO import runs from the sub tree of
+    the importer into the sub tree of the importee (`dir = true`: the subject imports; the parent identifiers of
+    `are_sub_modules_of` filters themselves are not counted) -/
+theorem pair_query_empty_iff (g : PGraph Str) (dir : Bool) (s o : Filter) :
+    pairQuery g dir s o = .ok [] ↔
+      g.hasNode s.id = true ∧ g.hasNode o.id = true ∧
+      ∀ u v, Reach g s.id u → Reach g o.id v → u ∉ parentIds [s, o] → v ∉ parentIds [s, o] →
+        ¬ (if dir = true then v ∈ g.importSuccs u else u ∈ g.importSuccs v) :=
+  Pta.pairQuery_nil_iff_lemma g dir s o
+
+/-- what "the other query is empty" means: every import leaving (`dir = true`) the sub tree of the subject ends inside
+    that sub tree or inside the sub tree of a rule object -/
+theorem other_query_empty_from (g : PGraph Str) (s : Filter) (objs : List Filter)
+    (h : otherQuery g true s objs = .ok []) :
+    ∀ u v, Reach g s.id u → (s.isParent = true → u ≠ s.id) → v ∈ g.importSuccs u →
+      Reach g s.id v ∨ ((∃ o ∈ objs, o ≠ s ∧ Reach g o.id v) ∧ v ∉ parentIds objs) :=
+  Pta.otherQuery_from_nil_lemma g s objs h
+
+/-- … and every import entering it (`dir = false`) starts inside it or inside the sub tree of a rule object -/
+theorem other_query_empty_to (g : PGraph Str) (s : Filter) (objs : List Filter)
+    (h : otherQuery g false s objs = .ok []) :
+    ∀ p n, Reach g s.id n → (s.isParent = true → n ≠ s.id) → n ∈ g.importSuccs p →
+      (Reach g s.id p ∧ (s.isParent = true → p ≠ s.id)) ∨
+        ((∃ o ∈ objs, o ≠ s ∧ Reach g o.id p) ∧ p ∉ parentIds objs) :=
+  Pta.otherQuery_to_nil_lemma g s objs h
+
+/-! non-vacuity: `p.a`, `p.c` should only import `q.r`, `p.b` — `p.c` imports both, `p.a` neither (and `p.a.x` imports `q`) -/
+def mG : PGraph Str :=
+  buildGraph ["p".toList, "p.a".toList, "p.a.x".toList, "p.b".toList, "p.c".toList, "q".toList, "q.r".toList]
+    [absImport "p.a.x".toList "q".toList, absImport "p.c".toList "p.b".toList, absImport "p.c".toList "q.r".toList] none
+def mSubs : List Filter := [.name "p.a".toList, .name "p.c".toList]
+def mObjs : List Filter := [.name "q.r".toList, .name "p.b".toList]
+def mRule (should only exc : Bool) : RuleState :=
+  { cfg := { subjects := some mSubs, objects := some mObjs, should := should, shouldOnly := only, exceptPresent := exc,
+             importDir := some true } }
+def mNone : Str → Str → Bool := fun _ _ => false
+
+set_option maxRecDepth 8000 in
+example : (assertApplies mNone (mRule false true false) mG).2 = .fail
+    [.imp "p.a.x".toList "q".toList false,
+     .miss false ⟨false, "p.a".toList⟩ [⟨false, "q.r".toList⟩, ⟨false, "p.b".toList⟩] false] := by decide
+set_option maxRecDepth 8000 in
+example : (convertAliases (mRule false true false).cfg).importDir = some true ∧
+    (convertAliases (mRule false true false).cfg).subjects = some mSubs ∧ convertFilters mNone mG.nodes mSubs = .ok mSubs ∧
+    (convertAliases (mRule false true false).cfg).objects = some mObjs ∧ convertFilters mNone mG.nodes mObjs = .ok mObjs :=
+  ⟨rfl, rfl, rfl, rfl, rfl⟩
+set_option maxRecDepth 8000 in
+example : pairQuery mG true (.name "p.a".toList) (.name "q.r".toList) = .ok [] ∧
+    pairQuery mG true (.name "p.c".toList) (.name "q.r".toList) = .ok [("p.c".toList, "q.r".toList)] := ⟨rfl, rfl⟩
+-- the `except` form: `p.c` imports nothing but the objects `q.r` and `p.b`
+set_option maxRecDepth 8000 in
+example : (assertApplies mNone (mRule true false true) mG).2 = .fail
+    [.miss true ⟨false, "p.c".toList⟩ [⟨false, "q.r".toList⟩, ⟨false, "p.b".toList⟩] false] := by decide
+set_option maxRecDepth 8000 in
+example : otherQuery mG true (.name "p.c".toList) mObjs = .ok [] := rfl
+-- the verb hypotheses of `missing_lines_complete` (rule `should only`) and `missing_any_lines_complete` (rule `should … except`)
+example : (((convertAliases (mRule false true false).cfg).behavior.should || (convertAliases (mRule false true false).cfg).behavior.shouldOnly) &&
+    !(convertAliases (mRule false true false).cfg).behavior.exc) = true := rfl
+example : (((convertAliases (mRule true false true).cfg).behavior.should || (convertAliases (mRule true false true).cfg).behavior.shouldOnly) &&
+    (convertAliases (mRule true false true).cfg).behavior.exc) = true ∧
+    (convertAliases (mRule true false true).cfg).importDir = some true ∧
+    (convertAliases (mRule true false true).cfg).subjects = some mSubs ∧
+    (convertAliases (mRule true false true).cfg).objects = some mObjs := ⟨rfl, rfl, rfl, rfl⟩
+set_option maxRecDepth 8000 in
+/-- a rule object carrying both `should()` and `should_only()` lists the identical `does not import` item twice -/
+theorem missing_line_twice_witness :
+    (assertApplies mNone (mRule true true false) mG).2 = .fail
+      [.miss false ⟨false, "p.a".toList⟩ [⟨false, "q.r".toList⟩, ⟨false, "p.b".toList⟩] false,
+       .imp "p.a.x".toList "q".toList false,
+       .miss false ⟨false, "p.a".toList⟩ [⟨false, "q.r".toList⟩, ⟨false, "p.b".toList⟩] false] := by decide
 
 /-! ## Part 3: the message text -/
 
